@@ -51,8 +51,11 @@ type c19FbCase struct {
 	AtStart bool     `json:"at_start,omitempty"`
 	// ViaBoot: the console is created by probeForVesaFbConsole from the framebuffer
 	// tag of a multiboot information block, as at boot, not by a constructor call
-	ViaBoot bool    `json:"via_boot,omitempty"`
-	Ops     []c19Op `json:"ops"`
+	ViaBoot bool `json:"via_boot,omitempty"`
+	// PreOps (only with a logo): operations issued after a first SetFont but before the logo is
+	// installed - the console then has no logo area yet; SetLogo and SetFont follow, then Ops
+	PreOps []c19Op `json:"pre_ops,omitempty"`
+	Ops    []c19Op `json:"ops"`
 }
 
 // c19Stream expands a seed into bytes (splitmix64); the expansion is a pure
@@ -332,6 +335,86 @@ func c19FbRun(c c19FbCase) (*vlib.Failure, c19OpStats) {
 		cons.palette[p.Index] = color.RGBA{R: p.R, G: p.G, B: p.B}
 	}
 
+	// font: all 256 glyphs, random bitmaps
+	m.font = make([]byte, 256*m.bpr*m.gh)
+	fg := &c19Stream{s: c.FontSeed}
+	for i := range m.font {
+		m.font[i] = fg.next()
+	}
+
+	m.want = make([]byte, m.n)
+	m.alt = make([]byte, m.n)
+	m.kind = make([]uint8, m.n)
+	// runOps: SetFont for the current logo area, then the operations against the model
+	runOps := func(ops []c19Op, phase string) *vlib.Failure {
+		cons.SetFont(&font.Font{Name: "verif", GlyphWidth: m.gw, GlyphHeight: m.gh, BytesPerRow: m.bpr,
+			Data: append([]byte(nil), m.font...)})
+		if w, h := cons.Dimensions(Characters); w != m.cols || h != m.rows {
+			return vlib.Failf("%s: the console reports a grid of %dx%d cells, want %dx%d (width/glyph width, (height-logo)/glyph height)", geo, w, h, m.cols, m.rows)
+		}
+		for i, pc := range cons.Palette() {
+			rgba, ok := pc.(color.RGBA)
+			if !ok {
+				return vlib.Failf("VERIF-HARNESS palette entry %d is not an RGBA colour", i)
+			}
+			m.pal[i] = rgba
+		}
+
+		m.model = append(m.model[:0], fb...)
+		for i, op := range ops {
+			st.classify(op, m.cols, m.rows)
+			switch op.Kind {
+			case "write", "fill", "scroll":
+			default:
+				return vlib.Failf("VERIF-HARNESS unknown op kind %q", op.Kind)
+			}
+			m.apply(op)
+			when := fmt.Sprintf("%sop %d %s on a console of %dx%d cells (%s)", phase, i, op, m.cols, m.rows, geo)
+			pc := c19Exec(c, when, func() {
+				switch op.Kind {
+				case "write":
+					cons.Write(op.Ch, op.Fg, op.Bg, op.X, op.Y)
+				case "fill":
+					cons.Fill(op.X, op.Y, op.W, op.H, op.Fg, op.Bg)
+				case "scroll":
+					dir := ScrollDirUp
+					if op.Down {
+						dir = ScrollDirDown
+					}
+					cons.Scroll(dir, op.Lines)
+				}
+			})
+			if pc.Panicked {
+				return vlib.Failf("%s: %s", when, c19PanicText(pc))
+			}
+			for k := 0; k < m.n; k++ {
+				if fb[k] == m.want[k] || m.kind[k] == c19Any || (m.kind[k] == c19Alt && fb[k] == m.alt[k]) {
+					continue
+				}
+				what := "a byte the operation must not touch changed"
+				if m.want[k] != m.model[k] {
+					what = "a byte of an addressed cell is wrong"
+					if fb[k] == m.model[k] {
+						what = "a byte of an addressed cell was not painted"
+					}
+				}
+				return vlib.Failf("%s: %s: %s is %#02x, want %#02x (before the operation: %#02x)", when, what, m.where(k), fb[k], m.want[k], m.model[k])
+			}
+			copy(m.model, fb)
+		}
+		return nil
+	}
+	if c.Logo != nil && len(c.PreOps) > 0 {
+		// first life of the console: no logo area yet
+		m.logoH = 0
+		m.rows = c.Height / m.gh
+		if f := runOps(c.PreOps, "before the logo is installed, "); f != nil {
+			return f, st
+		}
+		m.logoH = c.logoH()
+		m.rows = (c.Height - m.logoH) / m.gh
+	}
+	beforeLogo := append([]byte(nil), fb...)
 	// logo (through the real SetLogo, before SetFont as its doc comment requires)
 	if l := c.Logo; l != nil {
 		g := &c19Stream{s: l.Seed}
@@ -359,76 +442,14 @@ func c19FbRun(c c19FbCase) (*vlib.Failure, c19OpStats) {
 			if s < l.H && b >= lx*m.bytesPP && b < (lx+l.W)*m.bytesPP {
 				continue
 			}
-			if fb[i] != c19Prefill(i) {
-				return vlib.Failf("SetLogo (%s) changed a byte outside the logo rectangle: %s is %#02x, was %#02x", geo, m.where(i), fb[i], c19Prefill(i)), st
+			if fb[i] != beforeLogo[i] {
+				return vlib.Failf("SetLogo (%s) changed a byte outside the logo rectangle: %s is %#02x, was %#02x", geo, m.where(i), fb[i], beforeLogo[i]), st
 			}
 		}
 	}
 
-	// font: all 256 glyphs, random bitmaps
-	m.font = make([]byte, 256*m.bpr*m.gh)
-	fg := &c19Stream{s: c.FontSeed}
-	for i := range m.font {
-		m.font[i] = fg.next()
-	}
-	cons.SetFont(&font.Font{Name: "verif", GlyphWidth: m.gw, GlyphHeight: m.gh, BytesPerRow: m.bpr,
-		Data: append([]byte(nil), m.font...)})
-	if w, h := cons.Dimensions(Characters); w != m.cols || h != m.rows {
-		return vlib.Failf("%s: the console reports a grid of %dx%d cells, want %dx%d (width/glyph width, (height-logo)/glyph height)", geo, w, h, m.cols, m.rows), st
-	}
-	for i, pc := range cons.Palette() {
-		rgba, ok := pc.(color.RGBA)
-		if !ok {
-			return vlib.Failf("VERIF-HARNESS palette entry %d is not an RGBA colour", i), st
-		}
-		m.pal[i] = rgba
-	}
-
-	m.model = append([]byte(nil), fb...)
-	m.want = make([]byte, m.n)
-	m.alt = make([]byte, m.n)
-	m.kind = make([]uint8, m.n)
-
-	for i, op := range c.Ops {
-		st.classify(op, m.cols, m.rows)
-		switch op.Kind {
-		case "write", "fill", "scroll":
-		default:
-			return vlib.Failf("VERIF-HARNESS unknown op kind %q", op.Kind), st
-		}
-		m.apply(op)
-		when := fmt.Sprintf("op %d %s on a console of %dx%d cells (%s)", i, op, m.cols, m.rows, geo)
-		pc := c19Exec(c, when, func() {
-			switch op.Kind {
-			case "write":
-				cons.Write(op.Ch, op.Fg, op.Bg, op.X, op.Y)
-			case "fill":
-				cons.Fill(op.X, op.Y, op.W, op.H, op.Fg, op.Bg)
-			case "scroll":
-				dir := ScrollDirUp
-				if op.Down {
-					dir = ScrollDirDown
-				}
-				cons.Scroll(dir, op.Lines)
-			}
-		})
-		if pc.Panicked {
-			return vlib.Failf("%s: %s", when, c19PanicText(pc)), st
-		}
-		for k := 0; k < m.n; k++ {
-			if fb[k] == m.want[k] || m.kind[k] == c19Any || (m.kind[k] == c19Alt && fb[k] == m.alt[k]) {
-				continue
-			}
-			what := "a byte the operation must not touch changed"
-			if m.want[k] != m.model[k] {
-				what = "a byte of an addressed cell is wrong"
-				if fb[k] == m.model[k] {
-					what = "a byte of an addressed cell was not painted"
-				}
-			}
-			return vlib.Failf("%s: %s: %s is %#02x, want %#02x (before the operation: %#02x)", when, what, m.where(k), fb[k], m.want[k], m.model[k]), st
-		}
-		copy(m.model, fb)
+	if f := runOps(c.Ops, ""); f != nil {
+		return f, st
 	}
 	if boot != nil {
 		if ch := boot.changed(); ch != "" {
@@ -545,6 +566,9 @@ func c19GenFb(t *rapid.T, allowEmptyGrid bool, excluded func()) c19FbCase {
 	bytesPP := uint32(c.Bpp+7) / 8
 	mults := []uint32{c.GlyphW, c.GlyphH, c.GlyphW * bytesPP, c.Width*bytesPP + c.Pad, c.GlyphH * (c.Width*bytesPP + c.Pad)}
 	c.Ops = rapid.SliceOfN(c19GenOp(c.Width/c.GlyphW, gridRows, special, mults), 1, 25).Draw(t, "ops")
+	if c.Logo != nil && rapid.IntRange(0, 3).Draw(t, "drawbeforelogo") == 0 {
+		c.PreOps = rapid.SliceOfN(c19GenOp(c.Width/c.GlyphW, c.Height/c.GlyphH, special, mults), 1, 6).Draw(t, "preops")
+	}
 	return c
 }
 
@@ -561,6 +585,7 @@ func c19FbLabels(c c19FbCase, st c19OpStats) (bool, []string) {
 	add(c.Logo != nil, "logo-offset>0")
 	add(c.Pad > 0, "pitch>row-bytes")
 	add(c.ViaBoot, "created-from-boot-information")
+	add(len(c.PreOps) > 0, "drawn-on-before-the-logo-is-installed")
 	add(c.Bpp != 8 && c.RPos < c.BPos, "layout-bgr")
 	add(c.Bpp == 16 && c.GSize == 5, "depth=16-with-555-masks")
 	add(c.Width%c.GlyphW != 0, "right-remainder-strip")
